@@ -14,7 +14,7 @@ pub const PROP: Prop = Prop {
 };
 
 const LINES: [&str; 8] = ["a", "a b", "", "{}", "R", "x{}y", "ab ", "c\td"];
-const TEMPL: [&str; 6] = ["{}", "R", "x", "{}{}", "a{}b", "RR"];
+const TEMPL: [&str; 10] = ["{}", "R", "x", "{}{}", "a{}b", "RR", "aab", "aaab", "aabaab", "{{{}}}"];
 
 /// how the replace option is spelled; (argv words, replacement string)
 fn spellings() -> Vec<(Vec<&'static str>, &'static str)> {
@@ -27,6 +27,9 @@ fn spellings() -> Vec<(Vec<&'static str>, &'static str)> {
         (vec!["--replace"], "{}"),
         (vec!["--replace=R"], "R"),
         (vec!["-i=R"], "R"),
+        // replacement strings whose first byte repeats: an occurrence can start inside a partial match
+        (vec!["-I", "aab"], "aab"),
+        (vec!["-I", "{{}}"], "{{}}"),
     ]
 }
 
@@ -47,7 +50,7 @@ fn spec(t: Tier) -> Spec {
     Spec {
         id: "C20",
         level: "exploration",
-        rule: format!("every sequence of <= {l} input lines over {:?} x every list of 1..{a} initial arguments over {:?} x 8 spellings of the replace option (-I R, -IR, -i, -i=R, --replace, --replace=R; R in {{}}, R, %%) is run through the real xargs_main (hook H2 records each invocation): one run per non-empty line, in order, every occurrence of R in every initial argument replaced by the whole line, nothing appended, other arguments unchanged, empty input runs nothing with status 0; plus every ordered subset of {{replace, -n k, -L k}} (k in 1,2): the option given last decides the mode (-I with -n 1 is replace mode); non-trivial = case with at least one non-empty line and a template containing R; binary slice through the xargs binary and a recorder child", LINES, TEMPL),
+        rule: format!("every sequence of <= {l} input lines over {:?} x every list of 1..{a} initial arguments over {:?} x 10 spellings of the replace option (-I R, -IR, -i, -i=R, --replace, --replace=R; R in {{}}, R, %%, aab, {{{{}}}}) is run through the real xargs_main (hook H2 records each invocation): one run per non-empty line, in order, every occurrence of R in every initial argument replaced by the whole line, nothing appended, other arguments unchanged, empty input runs nothing with status 0; plus every ordered subset of {{replace, -n k, -L k}} (k in 1,2): the option given last decides the mode (-I with -n 1 is replace mode); non-trivial = case with at least one non-empty line and a template containing R; binary slice through the xargs binary and a recorder child", LINES, TEMPL),
         bound: json!({"max_lines": l, "max_template_args": a}),
         assumptions: vec!["lines with quotes, backslashes or leading blanks are excluded by the statement".into()],
         shards: 0,
